@@ -66,7 +66,17 @@ class Gen:
         r = self.r
         if depth <= 0 or r.random() < 0.3:
             return self.leaf()
-        k = r.choice(['list', 'tuple', 'dict', 'dict', 'set'])
+        k = r.choice(['list', 'tuple', 'dict', 'dict', 'set', 'and', 'or'])
+        if k in ('and', 'or'):
+            # And / Or over composite patterns: every child of And sees the TARGET (not the previous child's result, which for a
+            # dict pattern with Optional defaults is a different dict); the result is the last child's
+            sub, t = self.pat(depth - 1)
+            kind = {'dict': 'dict', 'list': 'list', 'tuple': 'tuple'}.get(t.get('k') if isinstance(t, dict) else None, 'object')
+            other = r.choice([['Type', 'object'], ['Type', kind], copy.deepcopy(sub)])
+            if k == 'and':
+                kids = [sub, other] if r.random() < 0.7 else [other, sub]
+                return ['And', kids, None], t
+            return ['Or', [['Type', 'NoneType'], sub] if r.random() < 0.5 else [sub, other], None], t
         if k == 'list':
             alts = [self.pat(depth - 1) for _ in range(r.randint(1, 2))]
             items = [copy.deepcopy(r.choice(alts)[1]) for _ in range(r.randint(0, 3))]
